@@ -470,6 +470,7 @@ class StmtMixin:
         hs.pc = hs.pc + (k >= 0, k < n)
         hs.pc = hs.pc + (self.as_bool(inv_at(hs, k)),)
         hs.env["__loop_k__"] = k
+        hs.env[f"__k{ordinal}__"] = k
         self.assign_target(node.target, elem(k), hs)
         head_env = dict(hs.env)
         body_outs = self.exec_block(node.body, hs) if self.feasible(hs) else []
